@@ -8,6 +8,7 @@ the breaking mutants the static check does not flag (leads for new necessary con
 (leads for false alarms).  Nothing is written under /verif; scratch copies live under /tmp and are removed.
 
   tools/mutant_leads.py linalg        (pysph/sph/wc/linalg.py, check C13)
+  tools/mutant_leads.py kernels       (pysph/base/kernels.py, check C08; the oracle compares with the unmutated module)
 """
 import ast, copy, importlib.util, os, random, shutil, subprocess, sys, tempfile
 import numpy as np
@@ -18,24 +19,30 @@ CLEAN = os.environ.get('MUT_SRC', '/tmp/clean')
 def mutants(tree, funcs):
     """yield (description, mutated module tree)"""
     sites = []
-    for fn in [f for f in tree.body if isinstance(f, ast.FunctionDef) and f.name in funcs]:
+    fdefs = [f for f in tree.body if isinstance(f, ast.FunctionDef) and (funcs is None or f.name in funcs)]
+    for c in [c for c in tree.body if isinstance(c, ast.ClassDef)]:
+        for f in c.body:
+            if isinstance(f, ast.FunctionDef) and (funcs is None or f.name in funcs or c.name + '.' + f.name in funcs):
+                f._owner = c.name
+                fdefs.append(f)
+    for fn in fdefs:
         for node in ast.walk(fn):
             if isinstance(node, ast.Compare) and len(node.ops) == 1:
                 for new in (ast.Lt, ast.LtE, ast.Gt, ast.GtE, ast.Eq, ast.NotEq):
                     if not isinstance(node.ops[0], new) and isinstance(node.ops[0], (ast.Lt, ast.LtE, ast.Gt, ast.GtE, ast.Eq, ast.NotEq)):
-                        sites.append((fn.name, node, 'ops', [new()], '%s -> %s' % (type(node.ops[0]).__name__, new.__name__)))
+                        sites.append((getattr(fn, '_owner', '') + '.' + fn.name, node, 'ops', [new()], '%s -> %s' % (type(node.ops[0]).__name__, new.__name__)))
             if isinstance(node, ast.BinOp) and isinstance(node.op, (ast.Add, ast.Sub, ast.Mult, ast.Div)):
                 for new in (ast.Add, ast.Sub, ast.Mult, ast.Div):
                     if not isinstance(node.op, new):
-                        sites.append((fn.name, node, 'op', new(), '%s -> %s' % (type(node.op).__name__, new.__name__)))
+                        sites.append((getattr(fn, '_owner', '') + '.' + fn.name, node, 'op', new(), '%s -> %s' % (type(node.op).__name__, new.__name__)))
             if isinstance(node, ast.Constant) and isinstance(node.value, (int, float)) and not isinstance(node.value, bool):
                 for nv in (node.value + 1, node.value - 1, 0):
                     if nv != node.value:
-                        sites.append((fn.name, node, 'value', nv, 'const %r -> %r' % (node.value, nv)))
+                        sites.append((getattr(fn, '_owner', '') + '.' + fn.name, node, 'value', nv, 'const %r -> %r' % (node.value, nv)))
             if isinstance(node, ast.AugAssign):
                 for new in (ast.Add, ast.Sub):
                     if not isinstance(node.op, new) and isinstance(node.op, (ast.Add, ast.Sub)):
-                        sites.append((fn.name, node, 'op', new(), 'aug %s -> %s' % (type(node.op).__name__, new.__name__)))
+                        sites.append((getattr(fn, '_owner', '') + '.' + fn.name, node, 'op', new(), 'aug %s -> %s' % (type(node.op).__name__, new.__name__)))
     for fname, node, field, val, what in sites:
         old = getattr(node, field)
         setattr(node, field, val)
@@ -134,7 +141,60 @@ def oracle_linalg(path):
         signal.alarm(0)
 
 
+def oracle_kernels(path):
+    """True when every kernel class of the (mutated) module computes what the same class of the unmutated module computes - value, dwdq, gradient, gradient_h, fac,
+    radius_scale, get_deltap - on a grid of separations and smoothing lengths, in every dimension it supports"""
+    import signal
+
+    def alarm(*a):
+        raise TimeoutError()
+    signal.signal(signal.SIGALRM, alarm)
+    signal.alarm(30)
+    try:
+        ref = load(os.path.join(CLEAN, 'pysph/base/kernels.py'), 'refkern')
+        m = load(path, 'mutkern')
+        for cname in ('CubicSpline', 'WendlandQuinticC2_1D', 'WendlandQuintic', 'WendlandQuinticC4_1D', 'WendlandQuinticC4', 'WendlandQuinticC6_1D', 'WendlandQuinticC6',
+                      'Gaussian', 'SuperGaussian', 'QuinticSpline'):
+            for dim in (1, 2, 3):
+                try:
+                    rk = getattr(ref, cname)(dim=dim)
+                except Exception:
+                    try:
+                        getattr(m, cname)(dim=dim)
+                        return False            # the mutant accepts a dimension the class does not support
+                    except Exception:
+                        continue
+                try:
+                    k = getattr(m, cname)(dim=dim)
+                except Exception:
+                    return False
+                if abs(k.fac - rk.fac) > 1e-12 * abs(rk.fac) or k.radius_scale != rk.radius_scale or k.dim != rk.dim:
+                    return False
+                if abs(k.get_deltap() - rk.get_deltap()) > 1e-12:
+                    return False
+                for h in (0.7, 1.0, 2.5):
+                    for q in (0.0, 1e-14, 0.05, 0.3, 0.5, 0.9, 1.0, 1.3, 1.7, 2.0, 2.4, 2.9, 3.0, 3.5):
+                        rij = q * h
+                        xij = [rij * 0.6, rij * 0.8, 0.0] if dim > 1 else [rij, 0.0, 0.0]
+                        want = (rk.kernel(xij, rij, h), rk.dwdq(rij, h), rk.gradient_h(xij, rij, h))
+                        g1, g2 = [0.0, 0.0, 0.0], [0.0, 0.0, 0.0]
+                        rk.gradient(xij, rij, h, g2)
+                        k.gradient(xij, rij, h, g1)
+                        got = (k.kernel(xij, rij, h), k.dwdq(rij, h), k.gradient_h(xij, rij, h))
+                        for a, b in list(zip(got, want)) + list(zip(g1, g2)):
+                            if not (abs(a - b) <= 1e-12 * max(1.0, abs(b))):
+                                return False
+        return True
+    except TimeoutError:
+        return False
+    except Exception:
+        return False
+    finally:
+        signal.alarm(0)
+
+
 TARGETS = {
+    'kernels': ('pysph/base/kernels.py', None, 'C08', oracle_kernels),
     'linalg': ('pysph/sph/wc/linalg.py', ('identity', 'dot', 'mat_mult', 'mat_vec_mult', 'augmented_matrix', 'gj_solve'), 'C13', oracle_linalg),
 }
 
@@ -149,7 +209,10 @@ def main():
         shutil.copytree(os.path.join(CLEAN, 'pysph'), os.path.join(T, 'pysph'))
         shutil.copytree(os.path.join(CLEAN, 'docs'), os.path.join(T, 'docs'))
         n = nb = missed = fa = 0
-        for what, msrc in mutants(tree, funcs):
+        limit = int(os.environ.get('MUT_EVERY', '1'))
+        for k_, (what, msrc) in enumerate(mutants(tree, funcs)):
+            if k_ % limit:
+                continue
             n += 1
             open(os.path.join(T, rel), 'w').write(msrc)
             good = oracle(os.path.join(T, rel))
